@@ -43,13 +43,13 @@ LEVEL_TEXT = (
     "stop_reasons. paused_daemon_is_cancelled (+ next_round_within_period): along EVERY run in which the killer's timers fire "
     "when due (`Dutiful`, Model file), a daemon that still runs with a known memory after round + backoff HAS BEEN cancelled, "
     "within backoff + one killer period of the flag, whoever set it; that the re-sweep is unconditional and periodic is a tie "
-    "obligation (AST + every observed round), not a property theorem. 'Stopping never stalls' is FALSE of the code as a full clause "
-    "(finding F12, open): `progress_partial` / `daemon_progress_partial` prove it for the micro-step models of _timer (tree variant: "
-    "idle loop guarded by the stopper, tied to the AST) and _daemon under the exact guard `Outcome.good` (a run that does not yield "
-    "to the loop and is to be retried is retried after a positive delay), for every program point, environment and outcome stream; "
-    "`nonyielding_retry_spins(+_witness)` / `daemon_nonyielding_retry_spins` prove the negation outside the guard, replayed on the "
-    "real code on every run (stall <=> the model never settles). `idle_only_spins(+_witness)`: historical negation for the code "
-    "before 6ccf081 (F1 fixed; corpus regression). 'Never crashes' has NO theorem: oracle on every history (no exception out of the "
+    "obligation (AST + every observed round), not a property theorem. 'Stopping never stalls': `progress` (_timer, <= 6 steps) and "
+    "`daemon_progress` (_daemon, <= 3 steps) for the micro-step models of the tree as it is (idle loop guarded by the stopper since "
+    "6ccf081, `await asyncio.sleep(0)` at the top of both retry loops since b04c26c; both variants tied to the AST), from every "
+    "program point, environment and stream of handler outcomes — a run may or may not yield to the loop and may be retried with any "
+    "delay incl. 0. Historical negations kept as regressions' model side: `nonyielding_retry_spins(+_witness)`, "
+    "`daemon_nonyielding_retry_spins` (F12, code before b04c26c), `idle_only_spins(+_witness)` (F1, code "
+    "before 6ccf081); the corpus cases F1/F12*.json are passing regressions. 'Never crashes' has NO theorem: oracle on every history (no exception out of the "
     "killer / processing / operator, operator alive) + tie `killer_iterates_snapshots` + corpus regressions (F11 fixed by 06bf1c1). "
     "'Asked to stop when the object disappears' is false for DELETED events without deletionTimestamp: negation proved "
     "(gone_unmarked_not_stopped, orphan_never_stopped, gone_unmarked_witness) and reproduced (finding F10, open). Runtime residue the "
@@ -58,11 +58,13 @@ THEOREMS = [("Kopf.Props.C09", "Kopf.C09." + n) for n in [
     "at_most_one", "spawn_only_when_none", "started_on_match", "self_exit_is_remembered", "no_restart_after_self_exit",
     "staged", "staged_monotone", "stop_reasons", "next_round_within_period", "paused_daemon_is_cancelled",
     "gone_unmarked_not_stopped", "orphan_never_stopped", "gone_unmarked_witness",
-    "progress_partial", "nonyielding_retry_spins", "nonyielding_retry_witness",
-    "daemon_progress_partial", "daemon_nonyielding_retry_spins", "idle_only_spins", "idle_only_spins_witness"]]
+    "progress", "daemon_progress",
+    "nonyielding_retry_spins", "nonyielding_retry_witness", "daemon_nonyielding_retry_spins",
+    "idle_only_spins", "idle_only_spins_witness"]]
 TIE_THEOREMS = [("Kopf.Tie.C09", "Kopf.C09.Tie." + n) for n in ["stage_eq", "killer_phases_eq", "timers_force_none",
                                                                          "timer_loop_guarded", "killer_iterates_snapshots",
-                                                                         "sweep_unconditional", "killer_period_eq"]]
+                                                                         "sweep_unconditional", "killer_period_eq",
+                                                                         "loops_yield_each_iteration"]]
 RULE = ("seeded whole-operator histories: 1-2 objects, 1-3 daemons/timers (modes obey/cancel/ignore/exit; cancellation_backoff/"
         "timeout in {None,0,small,large}; timers with interval/idle/both/neither, sharp, initial_delay), optional label filter and "
         "change handler, timeline of label toggles, spec edits, graceful deletion, deletion before the finalizer lands, forced "
@@ -79,7 +81,7 @@ ASSUMPTIONS = ["settings.background.instant_exit_timeout is None (the default): 
                "burns CPU but yields to the loop",
                "no event for a uid follows its DELETED event (Kubernetes API guarantee)",
                "whether a handler run yields to the event loop is an input of the micro-step models (`Outcome.yields`), not an "
-               "assumption; timers have idle > 0 and interval > 0 (`interval=0` spins like F12)",
+               "assumption; timers have idle > 0 (an `idle <= 0` makes the after-run idle loop spin)",
                "`Dutiful` (urgency of the killer's own timers: the round at r and the cancel stage at r + backoff happen before the "
                "clock passes them) is a hypothesis of paused_daemon_is_cancelled: asyncio fires due timers; CPU starvation is out of scope"]
 
@@ -695,9 +697,43 @@ def gen_pause_scenario(rng: Any, seed: int) -> dict:
             "settings": {}, "flavour": "pause-sneak"}
 
 
+def gen_deletion_scenario(rng: Any, seed: int) -> dict:
+    """Staged termination on deletion, with extra events for the object while the framework sleeps between two stages
+    (a foreign edit wakes the worker: `stop_daemons` visits the same stage a second time). 1-2 daemons that do not exit
+    on the flag alone, cancellation_timeout set, edits placed inside the backoff window, inside the cancellation
+    window and around the stage boundaries."""
+    handlers: list[dict] = []
+    for k in range(rng.choice([1, 1, 2])):
+        b, t = rng.choice([None, 0, 0.5, 1.0]), rng.choice([1.0, 2.0, 4.0])
+        opts: dict[str, Any] = {"cancellation_timeout": t}
+        if b is not None:
+            opts["cancellation_backoff"] = b
+        handlers.append({"kind": "daemon", "id": f"d{k}", "opts": opts,
+                         "daemon": {"mode": rng.choice(["ignore", "ignore", "cancel"]), "after": 2.0}})
+    if rng.random() < 0.4:
+        handlers.append({"kind": "create", "id": "c1"})
+    b0 = float(handlers[0]["opts"].get("cancellation_backoff") or 0)
+    t0 = float(handlers[0]["opts"]["cancellation_timeout"])
+    t = 1.0
+    tl: list[list] = [[t, "create", "a", {"spec": {"x": 0}, "metadata": {"labels": {"on": "1"}}}]]
+    t += rng.choice([1.0, 2.0, 3.5])
+    tl.append([t, "delete", "a"])
+    offs = sorted({rng.choice([b0 / 2, b0, b0 + 1.0 / 64, b0 + t0 / 4, b0 + t0 / 2, b0 + t0 - 1.0 / 64, b0 + t0, b0 + t0 + 0.5])
+                   for _ in range(rng.choice([1, 2, 3]))})
+    for n, off in enumerate(offs):
+        off = round(off * 64) / 64
+        tl.append([t + off, "edit", "a", rng.choice([{"spec": {"x": n + 1}}, {"metadata": {"labels": {"poke": str(n)}}},
+                                                      {"metadata": {"annotations": {"poke": str(n)}}}])])
+    return {"runner": RUNNER, "seed": seed, "handlers": handlers, "timeline": tl, "end": t + b0 + t0 + rng.choice([3.0, 6.0]),
+            "settings": {}, "flavour": "deletion-poke"}
+
+
 def gen_scenario(rng: Any, seed: int) -> dict:
-    if rng.random() < 0.2:
+    r = rng.random()
+    if r < 0.2:
         return gen_pause_scenario(rng, seed)
+    if r < 0.3:
+        return gen_deletion_scenario(rng, seed)
     handlers: list[dict] = []
     for k in range(rng.choice([1, 1, 2, 2, 3])):
         opts: dict[str, Any] = {}
@@ -1364,6 +1400,44 @@ def oracle(ctx: Ctx, sc: dict, res: dict) -> dict:
                          sid=i["sid"], flagged_by=who)
                 else:
                     ctx.count("escalation", f"{reason}: abandoned in time (flag by {who})")
+    # ---- O9: on deletion the stages are gone through as well: a daemon that was cancelled but has not exited is still
+    #      awaited — it is abandoned once backoff + timeout have passed, whatever other events the object gets meanwhile
+    #      (every visit of a stage must keep the object on the schedule: `stop_daemons` keeps returning its delay)
+    foreign_fin = {e[2] for e in sc.get("timeline", []) if e[1] in ("force_delete", "strip_own_finalizer", "fins", "recreate") and len(e) > 2}
+    for i in inst.values():
+        h, iv, ob = hs.get(i["hid"]), incs.get(i["inc"]), objs.get(i["uid"])
+        if h is None or iv is None or ob is None or h["kind"] != "daemon" or h.get("opts", {}).get("cancellation_timeout") is None:
+            continue
+        name = next((v["meta"]["name"] for v in ob["versions"]), None)
+        if name in foreign_fin:
+            continue
+        o = h["opts"]
+        backoff, timeout = float(o.get("cancellation_backoff") or 0), float(o.get("cancellation_timeout") or 0)
+        sets = [e for e in i["sets"] if e["reason"] != ["DONE"]]
+        td = next((e["t"] for e in sets if "RESOURCE_DELETED" in e["reason"] and e["site"] == "stop_daemons"), None)
+        if td is None or not sets:
+            continue
+        when = sets[0]["t"]
+        dl_c = max(td, when + backoff) + DELTA
+        dl_a = max(td, when + backoff + timeout) + DELTA
+        if listening(i["inc"], td, dl_c) and t_end(i) > dl_c:
+            if not any(cn["t"] <= dl_c for cn in i["cancels"]):
+                fail(f"{i['hid']} (instance {i['sid']}) was asked to stop at t={td} (object marked for deletion) and kept running, "
+                     f"but was not cancelled by t={dl_c} (cancellation_backoff={backoff})",
+                     {"site": "daemons.stop_daemons", "shape": "flagged daemon is not cancelled after the backoff", "reason": "RESOURCE_DELETED"},
+                     sid=i["sid"])
+            else:
+                ctx.count("escalation", "RESOURCE_DELETED: cancelled in time")
+        if listening(i["inc"], td, dl_a) and t_end(i) > dl_a:
+            if not any("DAEMON_ABANDONED" in e["reason"] and e["t"] <= dl_a for e in sets):
+                gone = ob["gone"]
+                fail(f"{i['hid']} (instance {i['sid']}) was asked to stop at t={td} (object marked for deletion), cancelled at "
+                     f"{[cn['t'] for cn in i['cancels']]} and kept running, but it was neither awaited until nor abandoned at "
+                     f"backoff+timeout (t={dl_a - DELTA}); the object was gone at t={gone}",
+                     {"site": "daemons.stop_daemons", "shape": "cancelled daemon is dropped from the schedule before its timeout (never abandoned)",
+                      "reason": "RESOURCE_DELETED"}, sid=i["sid"])
+            else:
+                ctx.count("escalation", "RESOURCE_DELETED: abandoned in time")
     for key, cs in calls_by.items():
         iv = incs.get(key[0])
         for c in cs:
@@ -1571,6 +1645,8 @@ def extract(ctx: Ctx) -> None:
             f"def sweepUnconditional : Bool := {'true' if unconditional else 'false'}\n\n"
             "/-- `asyncio.timeout(...)` between two rounds of the pausing loop, in ticks -/\n"
             f"def killerPeriod : Tick := {int(float(periods[0]) * 64)}\n\n")
+    out += ("/-- the retry loops of `_timer` and `_daemon` contain an unconditional `await asyncio.sleep(0)` at the top level of their body -/\n"
+            f"def loopsYieldEachIteration : Bool := {'true' if loops_yield_each_iteration(tree) else 'false'}\n\n")
     out += "end Kopf.C09.Extracted\n"
     leanio.write_generated("Kopf/Extracted/C09.lean", out)
 
@@ -1646,6 +1722,37 @@ def _shape(req: list, impl: Any) -> tuple[Any, bool]:
     return ["exit", req[1]["reasons"], impl["forever"]], True
 
 
+def _open_signatures() -> list[dict]:
+    from ..core import load_findings
+    return [f.get("signature") for f in load_findings() if f.get("property") == ID and f.get("status") == "open"]
+
+
+def _confirm(ctx: Ctx, sc: dict, n_before: int) -> None:
+    """A simulation is a pure function of (tree, scenario): an oracle failure that is not a known open finding is
+    re-run once in a fresh worker and kept only if the same signature fails again. What does not reproduce is not a
+    verdict about kopf: it is counted (`unconfirmed`) and written to stderr, never reported as a VIOLATION."""
+    new = [f for f in ctx.failures[n_before:] if f.kind == "oracle"]
+    known = _open_signatures()
+    suspects = [f for f in new if f.signature not in known]
+    if not suspects:
+        return
+    from ..sim import pool
+    res2 = pool.run_many([sc], wall=WALL, batch=1)[0]
+    scratch = Ctx(ctx.prop, ctx.tier, ctx.seed)
+    if "harness_error" not in res2:
+        oracle(scratch, sc, res2)
+    again = [f.signature for f in scratch.failures if f.kind == "oracle"]
+    for f in suspects:
+        if f.signature in again:
+            ctx.count("confirmed_on_rerun", str((f.signature or {}).get("shape")))
+        else:
+            ctx.failures.remove(f)
+            ctx.count("unconfirmed", str((f.signature or {}).get("shape")))
+            ctx.extra.setdefault("unconfirmed", []).append({"what": f.what, "scenario_seed": sc.get("seed")})
+            print(f"C09: an oracle failure did not reproduce on re-run (harness nondeterminism, not a verdict): {f.what[:160]}",
+                  file=sys.stderr)
+
+
 def _run_batch(ctx: Ctx, scenarios: list[dict], names: list[str | None], oracle_only: bool = False) -> dict:
     from ..sim import pool
     agg = {"stalls": 0, "f1_stalls": 0}
@@ -1673,7 +1780,9 @@ def _run_batch(ctx: Ctx, scenarios: list[dict], names: list[str | None], oracle_
                     ctx.count("nonyielding", f"daemon retry delay={h['daemon'].get('delay')}")
             for e in sc["timeline"]:
                 ctx.count("timeline_op", e[1])
+            n_before = len(ctx.failures)
             info = oracle(ctx, sc, res)
+            _confirm(ctx, sc, n_before)
             if res.get("stall"):
                 agg["stalls"] += 1
                 agg["f1_stalls"] += int(info.get("stall") == F1_SIG)
@@ -1755,14 +1864,15 @@ def run(ctx: Ctx) -> None:
     ctx.extra["retry_loops_yield_each_iteration_in_tree"] = always_yield
     for kind, delay, _sc in micro:
         out = {"done": delay == "ok", "failed": False, "errDelay": 0 if delay in (None, "ok") else _ticks(float(delay)),
-               "yields": always_yield}
+               "yields": False}
         env = {"now": 100, "stop": False, "idleReset": 0}
         if kind == "timer":
-            mreq.append(["C09.timer", {"cfg": {"initialDelay": None, "idle": None, "interval": 64, "sharp": False, "guarded": bool(guarded)},
+            mreq.append(["C09.timer", {"cfg": {"initialDelay": None, "idle": None, "interval": 64, "sharp": False, "guarded": bool(guarded),
+                                               "yielding": always_yield},
                                        "env": env, "loc": {"pc": "head", "started": 0, "done": False, "failed": False, "errDelay": 0},
                                        "outcome": out, "k": 200}])
         else:
-            mreq.append(["C09.daemon", {"env": env, "initialDelay": None, "outcome": out, "k": 200}])
+            mreq.append(["C09.daemon", {"env": env, "initialDelay": None, "yielding": always_yield, "outcome": out, "k": 200}])
     try:
         mouts = ctx.driver.ask(mreq)
         for (kind, delay, msc), res, out in zip(micro, mres, mouts):
@@ -1771,8 +1881,8 @@ def run(ctx: Ctx) -> None:
                 raise RuntimeError(res["harness_error"])
             ctx.case(key=["micro", kind, str(delay), stalled], nontrivial=True)
             ctx.count("micro_model", f"{kind} non-yielding, retry delay {delay}: {'stalls' if stalled else 'runs'}")
-            ctx.compare(f"{kind} micro-steps: the real run stalls <=> the model never settles (guard: Outcome.good)",
-                        {"stalls": stalled, "good": not stalled}, {"stalls": not out[1]["settles"], "good": out[1]["good"]},
+            ctx.compare(f"{kind} micro-steps: the real run stalls <=> the model (variant read from the tree) never settles",
+                        {"stalls": stalled}, {"stalls": not out[1]["settles"]},
                         {"scenario": msc, "request": mreq[micro.index((kind, delay, msc))]})
     except leanio.LeanError as e:
         ctx.tie_fail(f"Lean driver failed: {e}", {"log": e.log})
@@ -1782,7 +1892,8 @@ def run(ctx: Ctx) -> None:
         from ..sim import pool
         res = pool.run_many([f1], wall=WALL)[0]
         stalled = bool(res.get("stall")) and classify_stall(res)[1] == F1_SIG
-        req = ["C09.timer", {"cfg": {"initialDelay": None, "idle": 64, "interval": None, "sharp": False, "guarded": guarded},
+        req = ["C09.timer", {"cfg": {"initialDelay": None, "idle": 64, "interval": None, "sharp": False, "guarded": guarded,
+                                     "yielding": False},
                              "env": {"now": 256, "stop": True, "idleReset": 64},
                              "loc": {"pc": "idleLoop", "started": 129, "done": True, "failed": False, "errDelay": 0},
                              "outcome": {"done": True, "failed": False, "errDelay": 0, "yields": True}, "k": 64}]
@@ -1790,7 +1901,7 @@ def run(ctx: Ctx) -> None:
             out = ctx.driver.ask([req, ["C09.variant"]])
             ctx.compare("F1 witness: the real run stalls in the idle loop <=> the micro-step model spins", stalled,
                         out[0][1]["spinning"] and not out[0][1]["settles"], {"scenario": f1, "guarded_in_tree": guarded})
-            if out[1][1]["treeGuarded"] != guarded:
+            if out[1][1]["treeGuarded"] != guarded or out[1][1]["treeYielding"] != ctx.extra.get("retry_loops_yield_each_iteration_in_tree"):
                 ctx.notes.append("Model.treeGuarded differs from the tree under test (informative; the theorems cover both variants)")
                 print(f"C09 note: the tree's _timer idle loop is {'guarded' if guarded else 'unguarded'}; "
                       f"Kopf.C09.treeGuarded = {out[1][1]['treeGuarded']}", file=sys.stderr)
